@@ -70,7 +70,8 @@ def run(ctx, broken):
     specs = []
     widths = list(range(1, 255)) if ctx.tier != "quick" else [1, 2, 3, 31, 32, 63, 64, 65, 127, 128, 129, 191, 192, 193, 250, 253, 254]
     for n in widths:
-        for v in ([rng.below(1 << 16), rng.fe() % (1 << 250)] if ctx.tier == "quick" else [0, 5, rng.below(1 << 16), rng.fe() % (1 << 250)]):
+        # v = 0 is the boundary of the canonical guard (alias == r exactly: passes a `<= r` guard), v = 1 its neighbour
+        for v in ([0, 1, rng.below(1 << 16), rng.fe() % (1 << 250)] if ctx.tier == "quick" else [0, 1, 5, rng.below(1 << 16), rng.fe() % (1 << 250)]):
             specs.append(("w %s;trunc %d $0" % (hx(v), n), 0, v, ["truncate", "alias-x-plus-r"]))
     cs += full_alias_cases(ctx, specs)
     r.run(cs)
